@@ -232,6 +232,19 @@ pub fn dispatch(parts: &[&str]) -> String {
         "parse_args" => {
             match Arguments::parse_from_str(&unhex(parts[1])) { Ok(w) => format!("ok {}", super::hex(w.to_string().as_bytes())), Err(e) => format!("err {}", super::hex(e.to_string().as_bytes())) }
         }
+        "json_witness" => {
+            // JSON witness file -> WitnessValues -> JSON again (hex of the re-serialised text) | err
+            match serde_json::from_str::<WitnessValues>(&unhex(parts[1])) {
+                Ok(w) => match serde_json::to_string(&w) { Ok(t) => format!("ok {}", super::hex(t.as_bytes())), Err(e) => format!("ser-err {}", e) },
+                Err(e) => format!("err {}", super::hex(e.to_string().as_bytes())),
+            }
+        }
+        "json_args" => {
+            match serde_json::from_str::<Arguments>(&unhex(parts[1])) {
+                Ok(w) => match serde_json::to_string(&w) { Ok(t) => format!("ok {}", super::hex(t.as_bytes())), Err(e) => format!("ser-err {}", e) },
+                Err(e) => format!("err {}", super::hex(e.to_string().as_bytes())),
+            }
+        }
         "render_err" => {
             // rendered compile error of a source text (hex), or "ok" when it compiles
             match simfony::TemplateProgram::new(unhex(parts[1])) {
